@@ -68,6 +68,10 @@ class StepChecker:
             return
         Xb, Ab, idx = self._batch()
         P0 = self.est._infer(Xb, retain=False)
+        if Ab is not None and float(np.max(np.abs(Ab))) < 1e-12:
+            # the affinity of this batch is rounding noise (cosine distances of collinear points): nothing to differentiate
+            self.stats["illconditioned_skipped"] += 1
+            return
         if self.base == "mmd" and R.mmd_condition(P0, Ab, self.ovo, self.gemini.epsilon) > 1e-3:
             self.stats["illconditioned_skipped"] += 1
             return
